@@ -36,6 +36,10 @@ METHODS = [
   dict(file="AcraNetwork/SimpleEthernet.py", cls="ICMP", lean="ICMP", uses=[("SimpleEthernet", "ip_calc_checksum")], methods=[
       dict(func="pack", prop="C02", theorem="src_ICMP_pack"),
   ]),
+  dict(file="AcraNetwork/MPEGTS.py", cls="MPEGAdaptionExtension", lean="MPEGAdaptionExtension", methods=[
+      dict(func="pack", prop="C06", theorem="src_MPEGAdaptionExtension_pack"),
+      dict(func="unpack", params={"buffer": "bytes"}, prop="C06", theorem="src_MPEGAdaptionExtension_unpack"),
+  ]),
   dict(file="AcraNetwork/Pcap.py", cls="PcapRecord", lean="PcapRecord", methods=[
       dict(func="pack", prop="C05", theorem="src_PcapRecord_pack"),
       dict(func="unpack", prop="C05", theorem="src_PcapRecord_unpack"),
